@@ -5,9 +5,13 @@ import (
 	"encoding/json"
 	"flag"
 	"fmt"
+	"github.com/protobom/protobom/pkg/native"
+	"github.com/protobom/protobom/pkg/writer"
 	"math/rand"
 	"os"
+	"path/filepath"
 	"sort"
+	"time"
 
 	"github.com/protobom/protobom/pkg/formats"
 	_ "github.com/protobom/protobom/pkg/native/serializers/beta"
@@ -186,6 +190,18 @@ func shapeDoc(s map[string]any, r *rand.Rand) *sbom.Document {
 				}
 				nl.Edges = append(nl.Edges, e)
 			}
+		case "ladder": // forty layers of two nodes, each containing both nodes of the next layer: 2^40 containment paths, 81 nodes
+			prev := []string{"a"}
+			for layer := 0; layer < 40; layer++ {
+				cur := []string{fmt.Sprintf("l%d-x", layer), fmt.Sprintf("l%d-y", layer)}
+				for _, id := range cur {
+					nl.Nodes = append(nl.Nodes, &sbom.Node{Id: id, Name: id})
+				}
+				for _, p := range prev {
+					nl.Edges = append(nl.Edges, &sbom.Edge{Type: ct, From: p, To: append([]string{}, cur...)})
+				}
+				prev = cur
+			}
 		case "negtype":
 			nl.Edges = []*sbom.Edge{{Type: ct, From: "a", To: []string{"b"}}, {Type: -1, From: "b", To: []string{"c"}}, {Type: -2147483648, From: "a", To: []string{"c"}}}
 		}
@@ -267,6 +283,11 @@ func serRun(args []string) error {
 		return isolate("ser-run", pass, *out)
 	}
 	capChildMemory()
+	defer func() {
+		for _, f := range []string{"spdx23", "cdx15"} {
+			os.Remove(filepath.Join(os.TempDir(), fmt.Sprintf("vh-ser-%d-%s.json", os.Getpid(), f)))
+		}
+	}()
 	w, err := newNDWriter(*out)
 	if err != nil {
 		return err
@@ -351,6 +372,19 @@ func serRun(args []string) error {
 			ev["o"] = outcome(kind, text)
 			if kind == "ok" {
 				ev["n"] = normalise(data)
+				if pass == "SER" && (f == "spdx23" || f == "cdx15") && k%3 == 0 {
+					// the same document through the path-taking entry point, into a path that earlier documents were written to
+					path := filepath.Join(os.TempDir(), fmt.Sprintf("vh-ser-%d-%s.json", os.Getpid(), f))
+					var ferr error
+					fk, _ := guarded(20*time.Second, func() {
+						ferr = writer.New(writer.WithFormat(trFormats[f]), writer.WithRenderOptions(&native.RenderOptions{Indent: 2})).WriteFile(doc, path)
+					})
+					if fk == "ok" && ferr == nil {
+						if b, err := os.ReadFile(path); err == nil {
+							ev["nfile"] = normalise(b)
+						}
+					}
+				}
 			}
 			if pass == "SER" && k < 3 && f == "cdx15" {
 				ev["doc"] = proj.Doc(doc)
